@@ -1386,8 +1386,8 @@ func rotationCases(cfgs [][3]string) {
 			w.exec("enc 0 1 flt=-") // drr 0: SK1, IK(p0)
 			w.exec("adv 300000000000")
 			w.exec("sess 0 1 1")
-			w.exec("enc 1 2 flt=-") // drr 1: IK(p1) created 300 s after SK1
-			w.exec("enc 1 3 flt=-") // drr 2
+			w.exec("enc 1 2 flt=-")    // drr 1: IK(p1) created 300 s after SK1
+			w.exec("enc 1 3 flt=-")    // drr 2
 			w.exec("adv 301000000000") // SK1 (and IK(p0)) expired, IK(p1) not
 			w.exec("enc 1 4 flt=-")    // drr 3: inline rotation
 			w.exec(fmt.Sprintf("adv %d", gap))
